@@ -1127,6 +1127,9 @@ func runL4(args []string) {
 		for _, w := range iterAfterClose() {
 			rep.addHolds("C14", Finding{Case: map[string]any{"directed": "closed Iterator touched while and after other retrievals of its Statement"}, Kind: "holds", Detail: w})
 		}
+		for _, w := range cancelDuringFetch() {
+			rep.addHolds("C13", Finding{Case: map[string]any{"directed": "context cancelled inside the driver's fetch of row k, slow driver Close"}, Kind: "holds", Detail: w})
+		}
 		for i := 0; i < *n; i++ {
 			if hangCount >= maxHangs {
 				rep.Notes = append(rep.Notes, fmt.Sprintf("stopped after %d of %d cases: %d operations hung", i, *n, hangCount))
